@@ -119,3 +119,12 @@ def audit(pid):
             res["dirty"][n] = sorted(found[n])
     res["raw"] = out[-2000:] if (res["missing"] or res["dirty"]) else ""
     return res
+
+
+def kernel_recheck(pid):
+    """thorough tier: the toolchain's independent re-checker replays the compiled module of the
+    property's theorems (and what it imports) in the kernel.  Returns (ok, log tail, seconds)."""
+    import time
+    t = time.time()
+    r = subprocess.run(["lake", "env", "leanchecker", f"Treepath.Props.{pid}"], cwd=LEAN, capture_output=True, text=True)
+    return r.returncode == 0, (r.stdout + r.stderr)[-1500:], time.time() - t
